@@ -47,6 +47,14 @@ func handPickedNamed() map[string]Case {
 	return map[string]Case{
 		"F-20f-enum-constant-collision": {Schema: clash, Docs: []Doc{{Defs: []Def{q(f("a", f("c")))}}}, Seed: 7, Worlds: 4},
 		"F-20g-sel-type-name-collision": sn,
+		"F-20h-enum-named-int":    reservedEnum("int"),
+		"F-20h-enum-named-type":   reservedEnum("type"),
+		"F-20h-enum-named-string": reservedEnum("string"),
+		"F-20h-enum-named-json":   reservedEnum("json"),
+		"F-20d-response-key-vs-fragment-holder-name": mk(q(f("a", on("Alpha", f("x")), fa("alpha", "id")))),
+		"F-20d-holder-vs-holder-and-key": mk(q(f("u", f("__typename"), spread("Alpha"), on("Alpha", f("x")), fa("alpha_", "__typename"))),
+			Def{Kind: "frag", Name: "Alpha", Cond: "Beta", Sels: []Sel{f("y")}}),
+		"F-20e-repeated-type-condition-loses-fields": mk(q(f("u", f("__typename"), on("Alpha", f("x")), on("Alpha", f("c"), on("Alpha", fa("again", "x"))), Sel{Kind: "i", Sels: []Sel{f("__typename")}}))),
 		"F-20a-inline-fragment-without-type-condition": mk(q(f("a", Sel{Kind: "i", Sels: []Sel{f("x")}}))),
 		"F-20b-union-condition-inside-object":          mk(q(f("a", on("Thing", f("__typename")), f("x")))),
 		"F-20b-union-condition-inside-interface":       mk(q(f("i", f("__typename"), on("Thing", f("__typename"), on("Alpha", f("c")), on("Beta", f("y")))))),
@@ -71,16 +79,9 @@ func handPicked() []Case {
 	return out
 }
 
-// findingCases are the committed replays of the open findings (findings/C20-F-20x.json).
+// findingCases are the committed replays of the open findings (none at present).
 func findingCases() map[string]Case {
-	mk := func(s SchemaSpec, defs ...Def) Case {
-		return Case{Schema: s, Docs: []Doc{{Defs: defs}}, Seed: 7, Worlds: 4}
-	}
-	q := func(sels ...Sel) Def { return Def{Kind: "query", Name: "Q1", Sels: sels} }
-	return map[string]Case{
-		"F-20d-response-key-vs-fragment-holder-name": mk(fixedSchema(), q(f("a", on("Alpha", f("x")), fa("alpha", "id")))),
-		"F-20e-repeated-type-condition-loses-fields": mk(fixedSchema(), q(f("u", f("__typename"), on("Alpha", f("x")), on("Alpha", f("c"))))),
-	}
+	return map[string]Case{}
 }
 
 // selNameClash: the generated type names are "sel" + type name + a run-wide counter. With object types
@@ -98,4 +99,20 @@ func selNameClash() Case {
 		sels = append(sels, fa("b"+string(rune('a'+i)), "b", Sel{Kind: "i", Sels: []Sel{f("x")}}))
 	}
 	return Case{Schema: s, Docs: []Doc{{Defs: []Def{{Kind: "query", Name: "Q1", Sels: sels}}}}, Seed: 7, Worlds: 2}
+}
+
+// reservedEnum: an enum type whose name is a Go keyword / predeclared identifier / the json import,
+// next to an Int field (which `type int string` used to hijack) and a fragment (which imports json).
+func reservedEnum(name string) Case {
+	s := fixedSchema()
+	s.Types[0].Name = name
+	for ti := range s.Types {
+		for fi := range s.Types[ti].Fields {
+			if s.Types[ti].Fields[fi].Type.Base() == "Color" {
+				s.Types[ti].Fields[fi].Type = named(name)
+			}
+		}
+	}
+	q := Def{Kind: "query", Name: "Q1", Sels: []Sel{f("a", f("c"), f("x")), f("u", f("__typename"), on("Alpha", f("c")))}}
+	return Case{Schema: s, Docs: []Doc{{Defs: []Def{q}}}, Seed: 7, Worlds: 4}
 }
